@@ -49,6 +49,23 @@ def optval(v):
     return v.val if isinstance(v, Opt) else v
 
 
+def config_untouched(c, cfg):
+    """C18 / C14: the manager's TransferConfig is shared by all its transfers: planning a transfer (e.g. adjusting the part size to
+    S3's limits) never writes to it."""
+    conj = []
+    for k in CONFIG_FIELDS:
+        a, b = c.old.f(cfg, k), c.new.f(cfg, k)
+        if a is b:
+            continue
+        if isinstance(a, Opt) and isinstance(b, Opt):
+            conj.append(z3.And(a.is_none == b.is_none, a.val == b.val))
+        elif z3.is_expr(a) or z3.is_expr(b):
+            conj.append(a == b)
+        else:
+            conj.append(z3.BoolVal(a == b))
+    return {'the_shared_configuration_is_left_untouched': (z3.And(conj) if conj else z3.BoolVal(True), ['C18', 'C14'])}
+
+
 def submits(trace):
     """TransferCoordinator.submit call events with their task objects."""
     return [e for e in trace if e.kind == 'call' and e.name == f'{TC}.submit']
@@ -629,7 +646,7 @@ def register(R):
         tr = c.trace
         sub = submits(tr)
         loops = [e for e in tr if e.kind == 'loop' and any(x.kind == 'yield' for alt in e.alts for x in alt)]
-        out = {}
+        out = dict(config_untouched(c, c.a_config))
         okshape = len(sub) == 2 and len(loops) == 1 and index_of(tr, sub[0]) < index_of(tr, loops[0]) < index_of(tr, sub[1])
         out['create_then_parts_then_complete'] = (B(okshape), ['C05', 'C04', 'C01'])
         if not okshape:
@@ -971,7 +988,7 @@ def register(R):
         tr = c.trace
         sub = submits(tr)
         loops = [e for e in tr if e.kind == 'loop' and e.items and not isinstance(e.items[0], tuple)]
-        out = {}
+        out = dict(config_untouched(c, c.a_config))
         okshape = len(sub) == 2 and len(loops) >= 1 and index_of(tr, sub[0]) < index_of(tr, loops[-1]) < index_of(tr, sub[1])
         out['create_then_parts_then_complete'] = (B(bool(okshape)), ['C05', 'C04', 'C01'])
         if not okshape:
@@ -1004,7 +1021,7 @@ def register(R):
     jj_ = z3.Int('jj_')
     ccm = R.contracts[f'{CST}._submit_multipart_request']
     ccm.checks, ccm.raises = cp_multi_checks, {'Exception': only_propagates}
-    ccm.props = ('C01', 'C04', 'C05', 'C09', 'C10', 'C14', 'C15')
+    ccm.props = ('C01', 'C04', 'C05', 'C09', 'C10', 'C14', 'C15', 'C18')
     ccm.loops = {
         0: LoopSpec(invariant=cp_create_filter_inv, local_types={'create_multipart_extra_args': EXTRA}),
         1: LoopSpec(invariant=cp_parts_inv, local_types={'part_futures': FUTS}, iteration_checks=cp_part_iteration),
@@ -1127,7 +1144,7 @@ def register(R):
         okk = len(sub) == 1 and sub[0].extra['env']['executor'] is l1.st.obj(l1.st.env['$self']).fields['_io_executor']
         return {
             'one_write_task_per_released_write_to_the_io_executor': (B(bool(okk)), ['C10', 'C02']),
-            'submitted_while_holding_the_io_submit_lock': (B(all(lk.oid in e.held for e in sub)), ['C10', 'C16']),
+            'submitted_while_holding_the_io_submit_lock': (B(all(lk.oid in e.held for e in sub)), ['C10', 'C16', 'C02']),
         }
 
     def ns_queue_checks(c):
@@ -1139,7 +1156,7 @@ def register(R):
         loops = [e for e in tr if e.kind == 'loop']
         return {'release_and_submission_form_one_critical_section': (B(
             len(locks) == 1 and len(unlocks) == 1 and len(rw) == 1 and len(loops) == 1
-            and index_of(tr, locks[0]) < index_of(tr, rw[0]) < index_of(tr, loops[0]) < index_of(tr, unlocks[0])), ['C10', 'C16'])}
+            and index_of(tr, locks[0]) < index_of(tr, rw[0]) < index_of(tr, loops[0]) < index_of(tr, unlocks[0])), ['C10', 'C16', 'C02'])}
 
     def ns_queue_effects(c, st):
         st.ghost[('streamed', c.a_fileobj.label)] = z3.Int(fresh_name('streamed'))
@@ -1628,6 +1645,7 @@ def register(R):
         out = {
             'no_task_submitted_outside_the_part_loop': (B(len(submits(tr)) == 0), ['C04', 'C10']),
             'invoker_finalized_once_after_all_parts': (B(len(loops) == 1 and len(fin) == 1 and index_of(tr, fin[0]) > index_of(tr, loops[0])), ['C04', 'C06']),
+            **config_untouched(c, c.a_config),
         }
         size = optval(c.new.f(c.new.f(c.a_transfer_future, '_meta'), '_size'))
         out['number_of_parts_is_ceil_size_over_chunksize'] = (B('num_parts' in env) if 'num_parts' not in env else z3.And(
